@@ -7,9 +7,10 @@ import os
 import lib
 
 
-MODES = {'C03': 0, 'C04': 1, 'C07': 1, 'C08': 2}
+MODES = {'C03': 0, 'C04': 1, 'C07': 1, 'C08': 2, 'C12': 1}
 # which model-independent oracles belong to which property
 ORACLES_OF = {'C03': ('oracle:column-hit-runs-functions',), 'C08': ('oracle:column-hit-runs-functions',), 'C07': (),
+              'C12': ('oracle:column-wrong-value', 'oracle:column-request-fails', 'oracle:failed-column-request-stores'),
               'C04': ('oracle:column-wrong-value', 'oracle:column-request-fails', 'oracle:column-unknown-key', 'oracle:failed-column-request-stores')}
 
 
